@@ -104,15 +104,32 @@ Fixpoint insert_z (x : Z) (l : list Z) : list Z :=
   match l with [] => [x] | y :: r => if x <=? y then x :: l else y :: insert_z x r end.
 Definition sort_z (l : list Z) : list Z := fold_right insert_z [] l.
 
-Definition ks_ambiguous (G : Z) (hv : hvariant) (ge : Z) (gca : q) (rs : list residue) (xyz : list vec) (oob : vec)
-           (d : nat) : bool :=
+(* energies of all pairs the loop can ask for, computed once *)
+Definition energy_table (G : Z) (hv : hvariant) (gca : q) (rs : list residue) (xyz : list vec) (oob : vec)
+  : list (list (option (option Z))) :=
+  let n := length rs in
+  let thr := fst ks_energy_cutoff * SC / snd ks_energy_cutoff in
+  let phi := mkKS G hv thr (q_add ks_minimal_ca_distance2 gca) in
+  let hs := hydrogens G xyz oob hv rs in
+  map (fun d => map (fun a =>
+         if negb (r_skip (res_at rs d)) && offered rs d a && ca_close phi xyz (res_at rs d) (res_at rs a)
+         then Some (ks_energy_h G xyz oob hs rs d a) else None) (seq 0 n)) (seq 0 n).
+
+Definition table_energy (G : Z) (hv : hvariant) (rs : list residue) (xyz : list vec) (oob : vec)
+           (tab : list (list (option (option Z)))) (d a : nat) : option Z :=
+  match nth a (nth d tab []) None with
+  | Some e => e
+  | None => ks_energy G xyz oob hv rs d a      (* not tabulated: compute (never needed in practice) *)
+  end.
+
+Definition ks_ambiguous (G : Z) (hv : hvariant) (ge : Z) (gca : q) (rs : list residue) (xyz : list vec)
+           (tab : list (list (option (option Z)))) (d : nat) : bool :=
   let n := length rs in
   let thr := fst ks_energy_cutoff * SC / snd ks_energy_cutoff in
   let plo := mkKS G hv thr (q_sub ks_minimal_ca_distance2 gca) in
-  let phi := mkKS G hv thr (q_add ks_minimal_ca_distance2 gca) in
-  let cands := filter (fun a => offered rs d a && ca_close phi xyz (res_at rs d) (res_at rs a)) (seq 0 n) in
+  let cands := filter (fun a => match nth a (nth d tab []) None with Some _ => true | None => false end) (seq 0 n) in
   let border_ca := existsb (fun a => negb (ca_close plo xyz (res_at rs d) (res_at rs a))) cands in
-  let es := flat_map (fun a => match ks_energy G xyz oob hv rs d a with Some e => [e] | None => [] end) cands in
+  let es := flat_map (fun a => match nth a (nth d tab []) None with Some (Some e) => [e] | _ => [] end) cands in
   let border_e := existsb (fun e => (thr - ge <=? e) && (e <=? thr + ge)) es in
   let low := sort_z (filter (fun e => e <? thr + ge) es) in
   let gap := match low with _ :: e2 :: e3 :: _ => e3 - e2 <=? ge | _ => false end in
@@ -125,8 +142,9 @@ Fixpoint insert_a (x : nat * Z) (l : list (nat * Z)) : list (nat * Z) :=
   match l with [] => [x] | y :: r => if Nat.leb (fst x) (fst y) then x :: l else y :: insert_a x r end.
 Definition sort_a (l : list (nat * Z)) : list (nat * Z) := fold_right insert_a [] l.
 
-(* |model energy - reported energy| <= tol, both brought to 2^-64 fixed point *)
-Definition energy_close (tol : Z) (m : Z) (e32 : Z) : bool := Z.abs (m - e32 * 2 ^ 32) <=? tol.
+(* |model energy - reported energy| <= tol, both in SC fixed point;
+   e32 = reported energy * 2^32 *)
+Definition energy_close (tol : Z) (m : Z) (e32 : Z) : bool := Z.abs (m * 2 ^ 32 - e32 * SC) <=? tol * 2 ^ 32.
 
 Fixpoint bonds_match (tol : Z) (m e : list (nat * Z)) : bool :=
   match m, e with
@@ -144,11 +162,12 @@ Definition run_ks (c : ks_case) : option (list (bool * list (nat * Z))) :=
   | (G, hv, ge, gca, tol, rs, xyz, oob) =>
     let thr := fst ks_energy_cutoff * SC / snd ks_energy_cutoff in
     let p := mkKS G hv thr ks_minimal_ca_distance2 in
-    match kabsch_sander_frame p empty_nan rs xyz oob with
+    let tab := energy_table G hv gca rs xyz oob in
+    match ks_loop p empty_nan rs xyz (table_energy G hv rs xyz oob tab) with
     | None => None
     | Some sl =>
       Some (map (fun ds : nat * slots => let (d, s) := ds in
-                   (ks_ambiguous G hv ge gca rs xyz oob d, sort_a (slot_list s)))
+                   (ks_ambiguous G hv ge gca rs xyz tab d, sort_a (slot_list s)))
                 (combine (seq 0 (length rs)) sl))
     end
   end.
